@@ -39,6 +39,13 @@ class Walker:
         self.call_args = []                # (call node, callee dotted text, [(param index / kw, state or None)])
         self.moduli = []                   # (dim name, modulus expression text, node) for every manual normalisation
         self.uses = 0
+        self.alias = {}                    # name -> dim it is a plain copy of (start = start_dim)
+        self.neg = set()                   # dims known to be negative on the current path (inside `if d < 0:`)
+        from .core import single_bindings
+        try:
+            self._single = single_bindings(f.node)
+        except Exception:
+            self._single = {}
 
     # ------------------------------------------------------------ helpers
     def is_dim(self, e):
@@ -49,7 +56,50 @@ class Walker:
 
     def mentions_rank(self, e):
         t = norm(e)
-        return 'ndim' in t or 'len(' in t or '.shape' in t
+        if 'ndim' in t or 'len(' in t or '.shape' in t:
+            return True
+        # a temporary holding the rank:  n = x.ndim ; rank = len(shape) ; nd = rank or 1
+        from .core import inline_expr
+        try:
+            t2 = norm(inline_expr(self.f.node, e, bindings=self._single))
+        except RecursionError:
+            return False
+        return 'ndim' in t2 or 'len(' in t2 or '.shape' in t2
+
+    def root(self, name):
+        return self.alias.get(name, name)
+
+    def sign_fact(self, test, polarity):
+        """(dim, 'neg' | 'nonneg') when the test, taken with this polarity, fixes the sign of a dim (or of a plain copy of it); else None"""
+        if isinstance(test, ast.UnaryOp) and isinstance(test.op, ast.Not):
+            return self.sign_fact(test.operand, not polarity)
+        if not (isinstance(test, ast.Compare) and len(test.ops) == 1):
+            return None
+        l, r, op = test.left, test.comparators[0], test.ops[0]
+        if self.is_dim(l) and norm(r) == '0':
+            d = self.root(l.id)
+            if isinstance(op, ast.Lt):
+                return (d, 'neg' if polarity else 'nonneg')
+            if isinstance(op, ast.GtE):
+                return (d, 'nonneg' if polarity else 'neg')
+        if self.is_dim(r) and norm(l) == '0':
+            d = self.root(r.id)
+            if isinstance(op, ast.Gt):
+                return (d, 'neg' if polarity else 'nonneg')
+            if isinstance(op, ast.LtE):
+                return (d, 'nonneg' if polarity else 'neg')
+        return None
+
+    def apply_sign(self, fact):
+        if fact is None:
+            return
+        d, sgn = fact
+        if sgn == 'nonneg':
+            for n in list(self.state):
+                if self.root(n) == d and self.kinds.get(n, {'int'}) <= {'int'}:
+                    self.state[n] = NORM        # a non-negative int dim is its own normal form on this path
+        else:
+            self.neg.add(d)
 
     def normalising_value(self, name, v):
         """value expression that yields the normalised version of dim `name` (or of a RAW list)"""
@@ -112,22 +162,32 @@ class Walker:
                     return False
             self.expr(s.test)
             st0, k0 = dict(self.state), {k: set(v) for k, v in self.kinds.items()}
+            al0, ng0 = dict(self.alias), set(self.neg)
             self.refine(s.test, True)
+            self.apply_sign(self.sign_fact(s.test, True))
             t_term = self.block(s.body)
-            st_t, k_t = self.state, self.kinds
+            st_t, k_t, al_t = self.state, self.kinds, self.alias
             self.state, self.kinds = dict(st0), {k: set(v) for k, v in k0.items()}
+            self.alias, self.neg = dict(al0), set(ng0)
             self.refine(s.test, False)
+            self.apply_sign(self.sign_fact(s.test, False))
             f_term = self.block(s.orelse)
-            st_f, k_f = self.state, self.kinds
+            st_f, k_f, al_f = self.state, self.kinds, self.alias
+            self.neg = set(ng0)
             if t_term and f_term:
                 return True
             if t_term:
-                self.state, self.kinds = st_f, k_f
+                self.state, self.kinds, self.alias = st_f, k_f, al_f
+                # the facts of the surviving branch hold from here on only if they held before (the refinement was local to the branch) - except that
+                # a terminated sibling makes the surviving branch's sign fact permanent
+                return False
             elif f_term:
-                self.state, self.kinds = st_t, k_t
+                self.state, self.kinds, self.alias = st_t, k_t, al_t
             else:
                 self.state = {n: (RAW if RAW in (st_t.get(n, NORM), st_f.get(n, NORM)) else NORM) for n in set(st_t) | set(st_f)}
                 self.kinds = {n: k_t.get(n, set()) | k_f.get(n, set()) for n in set(k_t) | set(k_f)}
+                self.alias = {n: v for n, v in al_t.items() if al_f.get(n) == v}
+                # a dim that was RAW before the branches and is not re-bound stays RAW after the merge unless both branches normalised it
             return False
         if isinstance(s, (ast.Return, ast.Raise)):
             if getattr(s, 'value', None) is not None:
@@ -188,7 +248,17 @@ class Walker:
                     self.moduli.append((dn, norm(v), s))
                     self.state[name] = NORM
                     self.kinds[name] = {'int'}
+                    self.alias.pop(name, None)
                     return
+            # x = d + rank on a path where d < 0 is known
+            if isinstance(v, ast.BinOp) and isinstance(v.op, ast.Add):
+                for a, b in ((v.left, v.right), (v.right, v.left)):
+                    if self.is_dim(a) and self.root(a.id) in self.neg and self.mentions_rank(b):
+                        self.moduli.append((self.root(a.id), norm(v), s))
+                        self.state[name] = NORM
+                        self.kinds[name] = {'int'}
+                        self.alias.pop(name, None)
+                        return
             self.expr(v)
             if isinstance(v, ast.Call) and dotted(v.func) == 'range':
                 self.state[name] = NORM
@@ -207,7 +277,12 @@ class Walker:
             if self.is_dim(v):
                 self.state[name] = self.state[v.id]
                 self.kinds[name] = set(self.kinds.get(v.id, {'int'}))
+                if name != v.id:
+                    self.alias[name] = self.root(v.id)
                 return
+            self.alias.pop(name, None)
+            for n in [n for n, d in self.alias.items() if d == name]:
+                del self.alias[n]           # copies of the old value are no longer copies of `name`
             if name in self.state:
                 # rebound to something that is not a recognised dim expression: stop tracking
                 del self.state[name]
